@@ -206,6 +206,35 @@ theorem ones_per_period (n a b : Nat) (h : lookup n = some (a, b)) (s : Nat) (hs
   intro i _
   simp [outBit_eq]
 
+/-- the emitted values are bits, for every length, order, taps and state -/
+theorem run_emits_bits (n a b L s : Nat) : ∀ x ∈ (Prbs.run n a b L s).1, x = 0 ∨ x = 1 := by
+  intro x hx
+  rw [run_fst] at hx
+  obtain ⟨i, _, rfl⟩ := List.mem_map.mp hx
+  rw [outBit_eq]
+  omega
+
+/-- **balance**: one period holds `2^(n-1) − 1` zeros — exactly one fewer than ones (the m-sequence balance property) -/
+theorem zeros_per_period (n a b : Nat) (h : lookup n = some (a, b)) (s : Nat) (hs0 : s ≠ 0) (hs : s < 2^n) :
+    ((Prbs.run n a b (2^n - 1) s).1.filter (· = 0)).length = 2^(n-1) - 1 := by
+  have h1 := ones_per_period n a b h s hs0 hs
+  have hbits := run_emits_bits n a b (2^n - 1) s
+  have hlen : (Prbs.run n a b (2^n - 1) s).1.length = 2^n - 1 := by rw [run_fst]; simp
+  have hsplit : ∀ l : List Nat, (∀ x ∈ l, x = 0 ∨ x = 1) →
+      (l.filter (· = 0)).length + (l.filter (· = 1)).length = l.length := by
+    intro l hl
+    induction l with
+    | nil => rfl
+    | cons x xs ih =>
+      have := ih (fun y hy => hl y (List.mem_cons_of_mem _ hy))
+      rcases hl x (by simp) with rfl | rfl <;> simp <;> omega
+  have := hsplit _ hbits
+  have hn := (doc_pos n b (lookup_some_documented n a b h).2).1
+  have hp : 2 ^ n = 2 * 2 ^ (n - 1) := by
+    obtain ⟨k, rfl⟩ : ∃ k, n = k + 1 := ⟨n - 1, by omega⟩
+    simp [pow_succ, Nat.mul_comm]
+  omega
+
 /-- the output bit sequence itself is periodic with period 2^n-1 and no shorter state period exists -/
 theorem output_periodic (n a b : Nat) (h : lookup n = some (a, b)) (s : Nat) (hs0 : s ≠ 0) (hs : s < 2^n) (i : Nat) :
     (Prbs.step n a b)^[i + (2^n - 1)] s = (Prbs.step n a b)^[i] s := by
